@@ -13,6 +13,7 @@ import GoRes.Driver.QE
 import GoRes.Driver.Legacy
 import GoRes.Driver.Crash
 import GoRes.Driver.QH
+import GoRes.Driver.SvcApi
 /-! `gores-driver <domain>`: one op line in, one line `model<TAB>spec<TAB>tag` out. -/
 open GoRes GoRes.Wire
 
@@ -74,6 +75,7 @@ def stepLine (dom : String) (st : DState) (full : String) : DState × String :=
     | "qh" =>
       let (qs, m, s, t) := GoRes.Driver.QH.run st.qh args impl
       ({ st with qh := qs }, m ++ "\t" ++ s ++ "\t" ++ t)
+    | "svcapi" => let (m, s, t) := GoRes.Driver.SvcApi.run args impl; (st, m ++ "\t" ++ s ++ "\t" ++ t)
     | "legacy" =>
       let (ls, m, s, t) := GoRes.Driver.Legacy.run st.legacy args
       ({ st with legacy := ls }, m ++ "\t" ++ s ++ "\t" ++ t)
